@@ -108,32 +108,6 @@ theorem C19_types_elements (cfg : Config) (hs : cfg.Sound = true) (ops : List Op
     | _ => rw [hbody] at hty; cases t <;> simp [declTy] at hty
   rw [hh]; simp [typeOf, dataHdr]
 
-/-- what iterating a container body hands out, in terms of its declared type -/
-theorem iterate_container (cfg : Config) (hs : cfg.Sound = true) (ops : List Op) (id : Nat) (o : Obj)
-    (l : List (Option Seen)) (hget : (run cfg St.init ops).get id = some o)
-    (hit : (run cfg St.init ops).iterate cfg id = some l) :
-    (∀ k ety es, o.body = .seq k ety es → ∀ x ∈ l, x = some (some ety, cfg.cData)) ∧
-    (∀ k kty vty ents, o.body = .map k kty vty ents → ∀ x ∈ l, x = some (some kty, cfg.cData)) := by
-  have hb : BodyOK cfg o.body := bodyOK_of_get (C19_reachable_wf cfg hs ops) hget
-  unfold St.iterate at hit
-  rw [hget] at hit
-  simp only at hit
-  split at hit
-  · constructor
-    · intro k ety es hbody x hx
-      rw [hbody] at hit hb
-      simp only [Option.some.injEq] at hit
-      subst hit
-      obtain ⟨e, he, rfl⟩ := List.mem_map.mp hx
-      simp [seenElem, hb e he, typeOf, dataHdr]
-    · intro k kty vty ents hbody x hx
-      rw [hbody] at hit hb
-      simp only [Option.some.injEq] at hit
-      subst hit
-      obtain ⟨e, he, rfl⟩ := List.mem_map.mp hx
-      simp [seenElem, (hb e he).1, typeOf, dataHdr]
-  · cases hit
-
 /-- **C19_types (iteration)**: forward and backward iteration over an Array, List, Table or Tree in any reachable state
     hands out only objects whose `type_of` is the declared element (key) type and whose class is `data`; `get(m, key)`
     for every key of a Table/Tree hands out objects of the declared value type and class `data`. -/
@@ -147,11 +121,11 @@ theorem C19_types_iteration (cfg : Config) (hs : cfg.Sound = true) (ops : List O
         ∀ x ∈ l, x = some (some vty, cfg.cData)) := by
   refine ⟨?_, ?_, ?_⟩
   · intro l k ety es hit hbody x hx
-    have := (iterate_container cfg hs ops id o l hget hit).1 k ety es hbody
+    have := (iterate_container (C19_reachable_wf cfg hs ops) id o l hget hit).1 k ety es hbody
     simp only [List.mem_append, List.mem_reverse, or_self] at hx
     exact this x hx
   · intro l k kty vty ents hit hbody x hx
-    have := (iterate_container cfg hs ops id o l hget hit).2 k kty vty ents hbody
+    have := (iterate_container (C19_reachable_wf cfg hs ops) id o l hget hit).2 k kty vty ents hbody
     simp only [List.mem_append, List.mem_reverse, or_self] at hx
     exact this x hx
   · intro l k kty vty ents hit hbody x hx
@@ -166,17 +140,6 @@ theorem C19_types_iteration (cfg : Config) (hs : cfg.Sound = true) (ops : List O
       obtain ⟨e, he, rfl⟩ := List.mem_map.mp hx
       simp [seenElem, (hb e he).2, typeOf, dataHdr]
     · cases hit
-
-theorem everySecond_mem {α : Type} (l : List α) : ∀ x ∈ everySecond l, x ∈ l := by
-  induction l using everySecond.induct with
-  | case1 => intro x hx; cases hx
-  | case2 y => intro x hx; exact hx
-  | case3 y z r ih =>
-    intro x hx
-    simp only [everySecond, List.mem_cons] at hx ⊢
-    rcases hx with hx | hx
-    · exact Or.inl hx
-    · exact Or.inr (Or.inr (ih x hx))
 
 /-- **C19_types (views)**: what a view hands out. `slice`, `reverse`, `filter` and `map` (identity) hand out objects of
     the underlying iterable, so its guarantee carries over; `zip` and `enumerate` hand out their own Tuple, which is a
@@ -496,6 +459,105 @@ theorem C19_del_releases_registered (cfg : Config) (hs : cfg.Sound = true) (ops 
     simp only [dealloc, hheap, F.refHeap, if_true]
     refine ⟨by trivial, by rfl, ?_⟩
     simpa [St.isReg, St.release, St.updBody] using hunreg
+
+/-- **a refused release changes nothing at all, for all histories**: in every reachable state, `dealloc`, `dealloc_raw`,
+    `dealloc_root`, `del` or `del_root` applied to a live object whose class is static, stack or data returns the very same
+    state (objects, registry, release log) — whatever the object is. -/
+theorem C19_step_release_refused_unchanged (cfg : Config) (hs : cfg.Sound = true) (ops : List Op) (id : Nat) (o : Obj)
+    (f : FreeOp) (hf : f ≠ .delRaw ∧ f ≠ .destruct)
+    (hget : (run cfg St.init ops).get id = some o) (hlive : o.live = true)
+    (hcls : o.hdr.alloc = cfg.cStatic ∨ o.hdr.alloc = cfg.cStack ∨ o.hdr.alloc = cfg.cData) :
+    (stepFree cfg (run cfg St.init ops) f (.obj id)).1 = run cfg St.init ops := by
+  have F := facts_of_sound hs
+  have hw : WF cfg (run cfg St.init ops) := C19_reachable_wf cfg hs ops
+  generalize run cfg St.init ops = s at *
+  have hnh : o.hdr.alloc ≠ cfg.cHeap := by
+    rcases hcls with h | h | h <;> rw [h]
+    · exact F.ne_static_heap
+    · exact F.ne_stack_heap
+    · exact fun e => F.ne_heap_data e.symm
+  have hnr : s.isReg id = false := by
+    cases hr : s.isReg id with
+    | false => rfl
+    | true =>
+      obtain ⟨p, hp, hpid⟩ := isReg_true hr
+      obtain ⟨o1, hget1, hheap, _⟩ := hw.reg p hp
+      rw [hpid, hget] at hget1; cases hget1; exact absurd hheap hnh
+  have hd := (C19_dealloc_frees_iff_heap cfg hs s id o).2 hcls
+  unfold stepFree
+  simp only [Target.id, hget, hlive, Bool.not_true, Bool.false_eq_true, if_false, hnr, Bool.and_false]
+  repeat' split
+  all_goals first
+    | rfl
+    | (cases f <;> simp_all [freeObj, F.delViaCollector])
+
+/-- **a refused in-place operation changes nothing, for all histories**: in every reachable state a reallocating
+    operation (everything but String's in-place `rem`) applied to a live stack or static String or Tuple raises, and the
+    resulting state has the same object under every handle, the same registry and the same release log. -/
+theorem C19_step_inplace_refused_unchanged (cfg : Config) (hs : cfg.Sound = true) (ops : List Op) (id : Nat) (o : Obj)
+    (ip : InPlace) (hrem : ∀ x, ip ≠ .rem x ∨ ∃ items, o.body = .tuple items)
+    (hget : (run cfg St.init ops).get id = some o) (hlive : o.live = true)
+    (hcls : o.hdr.alloc = cfg.cStack ∨ o.hdr.alloc = cfg.cStatic)
+    (hbody : (∃ t, o.body = .scalar (.str t)) ∨ ∃ items, o.body = .tuple items) :
+    let r := stepInplace cfg (run cfg St.init ops) ip (.obj id)
+    (∀ k, r.1.get k = (run cfg St.init ops).get k) ∧ r.1.reg = (run cfg St.init ops).reg ∧
+      r.1.freed = (run cfg St.init ops).freed ∧
+      (∀ name out t, r.2 = .did name out t → ∃ e, out = .raised e) := by
+  generalize run cfg St.init ops = s at *
+  intro r
+  have hsame : ∀ k, (s.updBody id (fun _ => o.body)).get k = s.get k := by
+    intro k; rw [get_updBody]
+    by_cases hk : k = id
+    · subst hk; rw [hget]; cases o; simp
+    · cases s.get k <;> simp [hk]
+  have hcase : ∀ b out, inPlaceObj cfg s o ip = some (b, out) → b = o.body ∧ ∃ e, out = .raised e := by
+    intro b out hip
+    unfold inPlaceObj at hip
+    rcases hbody with ⟨t, ht⟩ | ⟨items, hi⟩
+    · rw [ht] at hip
+      simp only at hip
+      have hnr : ∀ x, ip ≠ .rem x := by
+        intro x; rcases hrem x with h | ⟨items, hi⟩
+        · exact h
+        · rw [ht] at hi; cases hi
+      rw [ht]
+      exact ((C19_inplace_refused_on_stack_static cfg hs s o.hdr.alloc hcls ip b out).1 t hnr hip)
+    · rw [hi] at hip
+      simp only at hip
+      rw [hi]
+      exact ((C19_inplace_refused_on_stack_static cfg hs s o.hdr.alloc hcls ip b out).2 items hip)
+  show (∀ k, (stepInplace cfg s ip (.obj id)).1.get k = s.get k) ∧ (stepInplace cfg s ip (.obj id)).1.reg = s.reg ∧
+      (stepInplace cfg s ip (.obj id)).1.freed = s.freed ∧
+      (∀ name out t, (stepInplace cfg s ip (.obj id)).2 = .did name out t → ∃ e, out = .raised e)
+  have hstep : stepInplace cfg s ip (.obj id) =
+      if ip.srcs.contains id = true then (s, Obs.skip "self") else
+      match inPlaceObj cfg s o ip with
+      | none => (s, Obs.skip "unsupported")
+      | some (b, out) => (s.updBody id (fun _ => b), Obs.did ip.name out (Target.obj id)) := by
+    unfold stepInplace
+    simp only [Target.id, hget, hlive, Bool.not_true, Bool.false_eq_true, if_false]
+    by_cases hself : ip.srcs.contains id = true
+    · simp only [hself, if_true]
+    · simp only [hself]
+      cases inPlaceObj cfg s o ip with
+      | none => rfl
+      | some p => rfl
+  rw [hstep]
+  by_cases hself : ip.srcs.contains id = true
+  · rw [if_pos hself]
+    exact ⟨fun _ => rfl, rfl, rfl, fun _ _ _ h => by cases h⟩
+  · rw [if_neg hself]
+    cases hip : inPlaceObj cfg s o ip with
+    | none => exact ⟨fun _ => rfl, rfl, rfl, fun _ _ _ h => by cases h⟩
+    | some p =>
+      obtain ⟨b, out⟩ := p
+      obtain ⟨hb, e, he⟩ := hcase b out hip
+      subst hb he
+      refine ⟨hsame, rfl, rfl, ?_⟩
+      intro name out t h
+      have h' : Obs.did ip.name (Outcome.raised e) (Target.obj id) = Obs.did name out t := h
+      simp only [Obs.did.injEq] at h'
+      exact ⟨e, h'.2.1.symm⟩
 
 /-! ## E. known findings on this tree (the model, which mirrors the code, violates the full statement) -/
 
